@@ -57,6 +57,10 @@ ROWS = {
    technique='exhaustive ast inventory of XML parsing call sites + enumerated sweep of all public parse entry points x generated hostile-document catalogue under a sys.addaudithook monitor',
    text='Every parsing call site in the package must resolve to defusedxml; every discovered entry point (about 2300 schema from_string functions plus SOAP, pack, metadata, binding and signature-checking entry points) is fed entity-declaring, external-reference, re-encoded, truncated and non-XML variants of a document it accepts: entity documents and malformed input must be refused, no file or socket may be touched, no replacement text may surface.',
    note='Audit hook observes CPython-level file/socket access; inventory is syntactic; stand-in tool only needed to build the SP/IdP objects.'),
+ 'C16': dict(level='exploration', design='3/C16',
+   technique='property-based testing: generated federation document sets (inline / file / fake-HTTP remote, nested groups, duplicates, expiry, SAML1-only roles, signed valid/tampered/wrong-key) x all accessors, oracle = reference model of the rendered specs; generated config -> metadata -> store round trip',
+   text='Every service helper x binding, certs x descriptor x use, entity categories, attribute requirements, with_descriptor and keys are compared with what the valid, unexpired, correctly signed documents declare (any single defining source for duplicated ids; unknown vs unsupported distinguished); generated SP/IdP configurations must load back to the same endpoints and certificates.',
+   note=TOOL_NOTE + '; frozen clock; metadata rendered by harness templates.'),
 }
 NOT_YET = {}
 def main():
